@@ -9,7 +9,7 @@ CLAIMED = {
     "C01": dict(
         technique="abstract interpretation of grammar actions against the ASDL schema + syntactic IR rules (operator table, operand order, associativity, precedence ladder, provenance of argument layout)",
         category="other",
-        text="Decides the structural clauses A1-A9 only (field names/kinds, no lost capture, operator class vs spelling, operand order, span provenance, associativity, precedence ladder, argument layout). Equality with CPython over all programs is NOT decided; each clause is a necessary condition whose breach changes a field or span on every input reaching the alternative.",
+        text="Decides the structural clauses A1-A10 (field names/kinds, no lost capture, operator class vs spelling, operand order, span provenance, associativity, precedence ladder, argument layout, look-aheads covering the FIRST set of what they guard, one column unit, backtracking discipline of the 14 hand-written combinators) and, as necessary conditions of tree equality, the rule sets of C04 (node well-formedness), C08 (token text/positions) and C09 (lexical agreement with CPython). Equality with CPython over all programs is NOT decided; each clause is a necessary condition whose breach changes a field or span on every input reaching the alternative.",
         note="trusts ast.X.__doc__ signatures and ast._Unparser tables of the running interpreter, the decompiler (pyir), the abstract semantics of the supported Python subset (absint) and two small language tables (source order exceptions, precedence ladder)"),
     "C04": dict(
         technique="abstract interpretation (list/optional/kind/context typestate/location completeness per constructor site), nullable analysis",
@@ -27,7 +27,7 @@ CLAIMED.update({
     "C03": dict(
         technique="loop-progress and exit analysis on a statement CFG, raise/assert/next() inventory over the call graph, reaching-definitions for asserts, abstract-interpretation type hazards",
         category="other",
-        text="Decides, per loop and per raise site: scan-loop progress (fresh snapshot, monotone position writes, incrementing fallback, end-of-line guard), EOF exits of every line-loop mode, no bare next() on the token stream, only SyntaxError/IndentationError/TokenError raised from reachable code, asserts that cannot see None, total lookups, parse() never returning None, absence of attribute/iteration/operand type hazards in actions and helpers. Termination of the PEG recursion itself rests on W3 (C18) and is bounded only by the interpreter stack (known finding D17).",
+        text="Decides, per loop and per raise site: scan-loop progress (fresh snapshot, monotone position writes, incrementing fallback, end-of-line guard), EOF exits of every line-loop mode, no bare next() on the token stream, only SyntaxError/IndentationError/TokenError raised from reachable code, asserts that cannot see None, total lookups, parse() never returning None, absence of attribute/iteration/operand type hazards in actions and helpers, and that no regular expression the scanner matches with is exponentially ambiguous (EDA criterion on the pattern automaton; patterns gathered from the call sites). Termination of the PEG recursion itself rests on W3 (C18) and is bounded only by the interpreter stack (known finding D17).",
         note="callees resolved by method name (over-approximate reachability); regex facts of the progress argument are decided under C08/C09; infeasible-path false alarms are possible in principle for the reaching-definitions rule"),
     "C18": dict(
         technique="graph criterion on the decompiled grammar IR (same-position fork detection through unmemoised rules, nullable analysis), structural check of the memo wrappers",
@@ -71,7 +71,7 @@ CLAIMED.update({
     "C02": dict(
         technique="gate/dominator analysis on the grammar IR (xonsh-only terminals from the folded OPS table vs CPython's exact-token table, token-pair adjacency of the Python fragment, least-fixpoint confinement), path rules on parse(), table agreement",
         category="other",
-        text="Decides the second sentence of the property and the listed mechanisms: every alternative building a xonsh runtime call is gated by a xonsh-only lexeme (or an impossible-in-Python token pair) or confined behind such gates; start rules end in ENDMARKER; a failed parse always raises; nothing accepts ERRORTOKEN and wildcard token items are confined; keyword tables equal CPython's; diagnostic rules are gated. Whether a Python alternative became too permissive (language inclusion against CPython) is NOT decided.",
+        text="Decides the second sentence of the property and the listed mechanisms: every alternative building a xonsh runtime call is gated by a xonsh-only lexeme (or an impossible-in-Python token pair) or confined behind such gates; start rules end in ENDMARKER; a failed parse always raises; nothing accepts ERRORTOKEN and wildcard token items are confined; keyword tables equal CPython's; diagnostic rules are gated; the 190 grammar rules that are structurally CPython 3.11's own (vendored python.gram as sibling implementation) still are; the scanner-side rejections (inconsistent dedent, unterminated one-line string, bytes mixed with str/f-strings, lone closing brace in f-string text - the last a listed known finding) are in place. For rules that already differ from CPython's, whether they became too permissive (language inclusion) is NOT decided.",
         note="trusts token.EXACT_TOKEN_TYPES / keyword of the running interpreter; the CFG reading over-approximates the PEG, so pair-absence is sound"),
 })
 
@@ -79,32 +79,32 @@ CLAIMED.update({
     "C05": dict(
         technique="symbolic evaluation of the sugar builders (abstract interpreter with shape and location provenance) compared with the documented translation table; placement rules on the grammar IR",
         category="other",
-        text="Decides: each builder returns exactly the documented translation shape; the xonsh alternatives sit in the rule all expression positions bottom out in and every plain-NAME expression leaf is that rule's atom or an excluded position; the returned node carries the span the builder was called with; $NAME and ${expr} are offered as Store targets. Tree equality with the written-out translation in every surrounding context is NOT decided.",
+        text="Decides: each builder returns exactly the documented translation shape; the xonsh alternatives sit in the rule all expression positions bottom out in and every plain-NAME expression leaf is that rule's atom or an excluded position; the returned node carries the span the builder was called with; $NAME and ${expr} are offered as Store targets; plus the rule sets its constructs rest on (subprocess forms C06 P1-P4, path-token flag pairing, backtick lexeme prefix-freeness and string continuation). Tree equality with the written-out translation in every surrounding context is NOT decided.",
         note="trusts absint's abstract semantics and the translation table taken from the property statement"),
     "C06": dict(
         technique="table extraction from the IR, symbolic evaluation of builders (shape + span provenance), structural rules on the word-assembly loop",
         category="other",
-        text="Decides: the four bracket forms map to the four runtime methods, @(..) and @$(..) build the starred helper calls, adjacency compares end with start pairs, pieces are walked in order and a word is emitted exactly at a non-adjacent boundary, no helper shifts a piece's own start column, WS tokens are dropped outside raw capture, a word is Constant(tok.string) over the token's span and gluing is previous+current. Word splitting over all spellings (how every spelling tokenizes) is NOT decided.",
+        text="Decides: the four bracket forms map to the four runtime methods, @(..) and @$(..) build the starred helper calls, adjacency compares end with start pairs, pieces are walked in order and a word is emitted exactly at a non-adjacent boundary, no helper shifts a piece's own start column, WS tokens are dropped outside raw capture, a word is Constant(tok.string) over the token's span and gluing is previous+current (incl. the span after gluing), every bracket form stays reachable through the look-ahead in front of it, and all column producers use one unit. Word splitting over all spellings (how every spelling tokenizes) is NOT decided.",
         note="token coordinates assumed right (C08)"),
     "C07": dict(
         technique="must-pass-through on the scanner's CFG, delimiter-table agreement, flag typestate (setter/cut/consumer/reset on all paths), symbolic evaluation of the macro builders",
         category="other",
-        text="Decides: every non-delimiter token is appended before the next is fetched, arguments end only at top-level , or ), spans run first-start..last-end, block capture skips only structural tokens and keeps whole lines, bracket tables agree with the tokenizer, each macro flag has one setter committed by a cut and a consumer that resets it on all paths, builders pass raw text in order, INDENT/DEDENT swallowed in balance. Fidelity over all argument texts is NOT decided.",
+        text="Decides: every non-delimiter token is appended before the next is fetched, arguments end only at top-level , or ), spans run first-start..last-end, block capture skips only structural tokens and keeps whole lines, bracket tables agree with the tokenizer, each macro flag has one setter committed by a cut and a consumer that resets it on all paths, builders pass raw text in order, INDENT/DEDENT swallowed in balance, and string tokens carry their full text and lines (C08 L1/L2). Fidelity over all argument texts is NOT decided.",
         note="token text equals source text (C08)"),
     "C08": dict(
         technique="per-construction-site symbolic check that token text is the slice of its span, accumulation/position pairing, regex group/width facts from the folded master pattern",
         category="other",
-        text="Decides for every TokenInfo(...) site of tokenize.py that text == line[start:end] (slice, single character, stripped prefix, empty text, delimiter placed at the end of the preceding middle token), that multi-line accumulation appends exactly the unread slice and moves the position to its end, that every alternative of the master pattern is one named group at least one character wide and every advance yields a token / starts an accumulation / is a continuation, that INDENT/DEDENT pair with pushes/pops and the stream ends DEDENT* ENDMARKER, and that position writes are monotone.",
+        text="Decides for every TokenInfo(...) site of tokenize.py that text == line[start:end] (slice, single character, stripped prefix, empty text, delimiter placed at the end of the preceding middle token), that multi-line accumulation appends exactly the unread slice and moves the position to its end, that every alternative of the master pattern is one named group at least one character wide and every advance yields a token / starts an accumulation / is a continuation, that INDENT/DEDENT pair with pushes/pops and the stream ends DEDENT* ENDMARKER, that position writes are monotone, that pending text is flushed before every f-string brace, that an unterminated one-line string raises, and that the continuation test is exact over all line endings (finite domain).",
         note="a regex match starts where it was asked to; synthetic MACRO_PARAM tokens of the parser-side wrapper are outside C08"),
     "C09": dict(
         technique="constant folding of the tokenizer's tables + regex automata (equivalence, prefix-freeness, intersection emptiness) against the running interpreter's tokenize/token tables; finite-domain evaluation of the indentation arithmetic; token-pair adjacency of the Python fragment",
         category="other",
-        text="Decides agreement of every table and sub-language the two tokenizers are built from (number/name/comment patterns, string bodies and prefixes, operator set and longest-first order, tab stops and column arithmetic, bracket-depth tests) and non-interference of the xonsh additions. Equality of token streams for all sources is NOT decided.",
+        text="Decides agreement of every table and sub-language the two tokenizers are built from (number/name/comment patterns, string bodies and prefixes, operator set and longest-first order, tab stops and column arithmetic, bracket-depth tests, string continuation over LF/CRLF/none, unique end of the search-path lexeme) and non-interference of the xonsh additions. Equality of token streams for all sources is NOT decided.",
         note="stdlib tokenize/token of the running interpreter is the oracle; quick tier samples the alphabet partition, thorough scans all code points"),
     "C10": dict(
         technique="mode/pattern table extraction by constant folding, regex automata intersection with witnesses, push/pop pairing rules, finite-domain evaluation of the conversion check",
         category="other",
-        text="Decides the scanner's tables and pairing (which delimiters each mode can see, that the brace search cannot cross an unescaped closing quote or stop at a doubled brace, exact push/pop of modes and bracket depth) and the grammar side (conversion accepts exactly s r a, conversion value, spec is a JoinedStr). Four deviations present today are listed known findings with witnesses. Agreement with CPython over all f-strings is NOT decided.",
+        text="Decides the scanner's tables and pairing (which delimiters each mode can see, that the brace search cannot cross an unescaped closing quote or stop at a doubled brace, exact push/pop of modes and bracket depth) and the grammar side (conversion accepts exactly s r a, conversion value, spec is a JoinedStr), the text clauses (escape decoding of literal text, named escapes, debug-field text, every colon-lexeme entering the spec branch) and the token/location rules f-strings share with C08/C04. Eight deviations present today (nested specs, closing quote, doubled braces, spec terminator, escapes, named escapes, debug text) are listed known findings with witnesses. Agreement with CPython over all f-strings is NOT decided.",
         note="the f-string scanner is known to be wrong in several independent ways; the check keeps those identified and reports anything new"),
 })
 
